@@ -38,6 +38,29 @@ def ed_verify(pk: bytes, msg: bytes, sig: bytes) -> bool:
         return False
 
 
+_L = 2 ** 252 + 27742317777372353535851937790883648493
+
+
+def ed_sign_alt(seed: bytes, msg: bytes, salt: bytes) -> bytes:
+    """A valid Ed25519 signature of `msg` under the key of `seed` made with a nonce derived from `salt` instead of the
+    RFC 8032 deterministic one: a signer may produce any number of distinct valid signatures of one message."""
+    from nacl.bindings import crypto_scalarmult_ed25519_base_noclamp
+    h = hashlib.sha512(seed).digest()
+    a = bytearray(h[:32])
+    a[0] &= 248
+    a[31] &= 127
+    a[31] |= 64
+    a = int.from_bytes(a, 'little') % _L
+    pk, _ = crypto_sign_seed_keypair(seed)
+    r = int.from_bytes(hashlib.sha512(b'alt-nonce' + salt + h[32:] + msg).digest(), 'little') % _L
+    if r == 0:
+        r = 1
+    R = crypto_scalarmult_ed25519_base_noclamp(r.to_bytes(32, 'little'))
+    k = int.from_bytes(hashlib.sha512(R + bytes(pk) + msg).digest(), 'little') % _L
+    S = (r + k * a) % _L
+    return bytes(R) + S.to_bytes(32, 'little')
+
+
 def mnemonic_entropy(words, password: str = '') -> bytes:
     return hmac.new(' '.join(words).encode('utf-8'), password.encode('utf-8'), hashlib.sha512).digest()
 
@@ -64,6 +87,8 @@ def _selfcheck():
     sig = bytes.fromhex('e5564300c360ac729086e2cc806e828a84877f1eb8e5d974d873e065224901555fb8821590a33bacc61e39701cf9b46b'
                         'd25bf5f0595bbe24655141438e7a100b')
     assert ed_verify(pk, b'', sig) and not ed_verify(pk, b'\x00', sig)
+    alt = ed_sign_alt(seed, b'', b'x')
+    assert alt != sig and ed_verify(pk, b'', alt) and ed_verify(pk, b'm', ed_sign_alt(seed, b'm', b'y'))
 
 
 _selfcheck()
